@@ -25,10 +25,11 @@ QuickClasses == {Class("slot1", "slot", FALSE, 1, TRUE, {"a"}, 5), Class("slot2"
                  Class("sw1", "sw", FALSE, 1, TRUE, {"a", "ab"}, 5), Class("sw2", "sw", FALSE, 2, TRUE, {"a"}, 4),
                  Class("cellF", "cell", FALSE, 1, FALSE, {"a"}, 6), Class("cellT", "cell", FALSE, 1, TRUE, {"a"}, 5),
                  Class("swh", "swh", FALSE, 1, TRUE, {"a"}, 7)}
-ThoroughClasses == {Class("slot1", "slot", FALSE, 1, TRUE, {"a"}, 7), Class("slot2", "slot", TRUE, 2, TRUE, {"a"}, 6),
-                    Class("sw1", "sw", FALSE, 1, TRUE, {"a", "ab"}, 8), Class("sw2", "sw", FALSE, 2, TRUE, {"a", "ab"}, 6),
-                    Class("cellF", "cell", FALSE, 1, FALSE, {"a"}, 8), Class("cellT", "cell", FALSE, 1, TRUE, {"a"}, 8),
-                    Class("swh", "swh", FALSE, 1, TRUE, {"a"}, 9)}
+ThoroughClasses == {Class("slot1", "slot", FALSE, 1, TRUE, {"a"}, 6), Class("slot2", "slot", TRUE, 2, TRUE, {"a"}, 5),
+                    Class("sw1", "sw", FALSE, 1, TRUE, {"a", "ab"}, 6), Class("sw2", "sw", FALSE, 2, TRUE, {"a"}, 5),
+                    Class("sw2ab", "sw", FALSE, 2, TRUE, {"a", "ab"}, 4),
+                    Class("cellF", "cell", FALSE, 1, FALSE, {"a"}, 8), Class("cellT", "cell", FALSE, 1, TRUE, {"a"}, 7),
+                    Class("swh", "swh", FALSE, 1, TRUE, {"a"}, 8)}
 
 GenInit == /\ g \in Classes
            /\ MInit(g.consume, 0) /\ DInit
